@@ -252,43 +252,57 @@ def check(ctx):
     if awp is None:
         ctx.lost('C15.5', 'Envelope::assertions_with_predicate')
     else:
-        rt = TermBuilder(F, awp).return_term()
-        col = m_call(rt, name='collect', trait='Iterator')
-        fl = m_call(col[0], name='filter', trait='Iterator') if col else None
+        atb = TermBuilder(F, awp)
+        rds = ret_defs(atb)
+        rt = atb.return_term()
         good = False
         why = fmt(rt)
-        if fl is not None and fl[1][0] == 'closure':
-            src = strip_sites(elem_source(fl[0]))
-            a = m_call(src, name='assertions', self_suffix='Envelope')
-            if a is not None and a[0] == P1:
-                # closure: as_predicate(subject(a)).map(|p| digest(p) == digest(pred)).unwrap_or(false)
-                cb = F.closure(fl[1][1])
-                crt = strip_sites(TermBuilder(F, cb).return_term())
-                u = m_call(crt, name='unwrap_or')
-                mp = m_call(u[0], name='map') if u else None
-                if u is not None and u[1] == ('bool', False) and mp is not None and mp[1][0] == 'closure':
-                    ap = m_call(mp[0], name='as_predicate', self_suffix='Envelope')
+        # the lookup as a selection (filter+collect, or a loop that pushes the elements it keeps) of assertions(self)
+        sel = selection(F, awp, atb, rt, use_block=rds[0][0] if len(rds) == 1 else None)
+        if sel is None:
+            why = 'result is not a selection of the elements of a collection: %s' % fmt(rt)
+        else:
+            a = m_call(sel.coll, name='assertions', self_suffix='Envelope')
+            if a is None or a[0] != P1:
+                why = 'selection ranges over %s, not assertions(self)' % fmt(sel.coll)
+            elif sel.value != ('elem', sel.coll):
+                why = 'kept elements are transformed: %s' % fmt(sel.value)
+            else:
+                E = sel.elem
+                def is_X(x):
+                    ap = m_call(x, name='as_predicate', self_suffix='Envelope')
                     sj = m_call(ap[0], name='subject', self_suffix='Envelope') if ap else None
-                    inner = F.closure(mp[1][1])
-                    irt = strip_sites(TermBuilder(F, inner).return_term()) if inner else None
-                    e = m_call(irt, name='eq', trait='PartialEq') if irt else None
-                    if sj is not None and sj[0] == P2 and e is not None:
-                        l, r = m_digest(e[0]), m_digest(e[1])
-                        # one side the candidate predicate (param 2 of the inner closure), the other the captured query predicate
-                        if (l == P2 and r is not None and r[0] == 'upvar') or (r == P2 and l is not None and l[0] == 'upvar'):
-                            capt = strip_sites(fl[1][2][0]) if fl[1][2] else None
-                            if capt is not None and (capt == ('env', P2) or capt == P2):
-                                good = True
-                            else:
-                                why = 'the compared predicate is %s, not Envelope::new(predicate argument)' % fmt(capt)
-                        else:
-                            why = 'inner comparison is %s' % fmt(irt)
-                    else:
-                        why = 'filter looks at %s' % fmt(crt)
+                    return sj is not None and sj[0] == E
+                def side(x):
+                    d = m_digest(x)
+                    if d is None:
+                        return ''
+                    if d[0] == 'vfield' and d[2] == 'Some' and is_X(d[1]):
+                        return 'candidate'
+                    if sel.captured(d) in (('env', P2), P2):
+                        return 'query'
+                    return ''
+                def is_cmp(t):
+                    return t[0] == 'call' and call_name(t) in ('eq', 'ne') and len(t[2]) == 2 and sorted([side(t[2][0]), side(t[2][1])]) == ['candidate', 'query']
+                atoms = sel.atoms(is_cmp)
+                if len(atoms) != 1:
+                    why = 'the element test does not compare digest(as_predicate(subject(a))) with digest(Envelope::new(predicate)) exactly once (%d comparisons)' % len(atoms)
                 else:
-                    why = 'filter closure is %s' % fmt(crt)
+                    eq_is = call_name(atoms[0]) == 'eq'
+                    cand = [x for x in atoms[0][2] if side(x) == 'candidate'][0]
+                    X = m_digest(cand)[1]
+                    D = ('discr', X)
+                    rows = {}
+                    for d in (0, 1):
+                        for q in (False, True):
+                            rows[(d, q)] = sel.keep_values({D: d, atoms[0]: (q if eq_is else not q)})
+                    expect = {(0, False): {False}, (0, True): {False}, (1, False): {False}, (1, True): {True}}
+                    if rows == expect:
+                        good = True
+                    else:
+                        why = 'keep table over (subject is an assertion, predicate digests equal) is %s' % rows
         if good:
-            ctx.ok('C15.5', ctx.site(awp), 'lookup = assertions(self) filtered by digest(as_predicate(subject(a))) == digest(Envelope::new(p)); non-assertions -> false')
+            ctx.ok('C15.5', ctx.site(awp), 'lookup keeps exactly the assertions a with as_predicate(subject(a)) = Some(p) and digest(p) == digest(Envelope::new(predicate)); non-assertions are dropped (4 valuations)')
         else:
             ctx.fail('C15.5', ctx.site(awp), 'predicate lookup filter has an unexpected form: %s' % why, key='C15.5|filter')
     def single(name, none_kind):
